@@ -47,6 +47,30 @@ def families(rng):
         add('launch-inline ' + callee, 'class Plain {}\nclass WithInit { init(a) { self.a = a; } }\nfn f(a) { return a; }\n'
             'let l = [1];\nlet m = {"k": 1};\nfn t() {\n  let x = 1;\n  for i in 300.times() { launch %s; }\n  let y = 2;\n  return x + y;\n}\n'
             'try { print(t()); } catch e: Error { print("c"); }\nprint("end");\n' % callee)
+    # ---- channel operations that must wait, inside callbacks driven by natives (the native cannot be suspended) -----
+    for cb_label, cb in [('each', 'l.iter().each(|x| { %s })'), ('map', 'l.iter().map(|x| { %s return x; }).list()'),
+                         ('reduce', 'l.iter().reduce(0, |a, x| { %s return a; })'), ('sort', 'l.sort(|a, b| { %s return a - b; })'),
+                         ('str', 'print(Blk())')]:
+        for op_label, op in [('send-sync', 'ch <- 1;'), ('recv-empty', '<- ch;'), ('send-full', 'full <- 1;')]:
+            body = cb % op if cb_label != 'str' else cb
+            pre = ('class Blk { str() { %s return "b"; } }\n' % op) if cb_label == 'str' else ''
+            add('blocking-in-callback %s %s' % (cb_label, op_label),
+                pre + 'let ch = chan();\nlet full = chan(1);\nfull <- 0;\nlet l = [2, 1];\n'
+                'try { %s; print("returned"); } catch e: Error { print("c"); }\nprint("end");\n' % body)
+    # ---- reservations sized by a huge size hint --------------------------------------------------------------------
+    for label, e in [('times-list', '1e18.times().list()'), ('collect', 'List.collect(1e18.times())'),
+                     ('tuple-collect', 'Tuple.collect(1e18.times())'), ('take-list', '1e18.times().take(1e17).list()'),
+                     ('map-list', '1e18.times().map(|x| x).list()'), ('zip-list', '1e18.times().zip(1e18.times()).list()'),
+                     ('chain-list', '1e18.times().chain(1e18.times()).list()'),
+                     ('small-control', '5.times().list()')]:
+        add('huge-reserve ' + label, 'try { print(%s.len()); } catch e: Error { print("c"); }\nprint("end");\n' % e)
+    # ---- str() of an operand misbehaving inside the assertion natives and other natives that stringify -----------
+    for how, body in [('raises', 'raise Error("in str");'), ('exits', 'exit(5);'), ('nonstring', 'return 5;'),
+                      ('recursive', 'return "${self}";'), ('asserts', 'assertEq(1, 2); return "s";')]:
+        for user, call in [('assertEq', 'assertEq(S(), 1)'), ('assertEq-rhs', 'assertEq(1, S())'), ('assertNe', 'assertNe(S(), S())' if False else 'let s = S(); assertNe(s, s)'),
+                           ('assert', 'assert(S())'), ('list-str', '[S()].str()'), ('map-str', '{"k": S()}.str()'),
+                           ('tuple-str', '(S(),).str()'), ('join', '[S()].iter().join(",")' if False else '[S(), S()].str()')]:
+            add('assert-str %s %s' % (user, how), 'class S { str() { %s } }\ntry { %s; print("returned"); } catch e: Error { print("c"); }\nprint("end");\n' % (body, call))
     # ---- built-in subclassing (D9) and constructing builtins -----------------
     for b in ['List', 'String', 'Map', 'Tuple', 'Number', 'Bool', 'Nil', 'Iter', 'Fun', 'Closure', 'Method', 'Native',
               'Class', 'Channel', 'Module', 'Object', 'Error']:
